@@ -10,6 +10,7 @@ package main
 import (
 	"encoding/json"
 	"fmt"
+	"os"
 	"path/filepath"
 	"regexp"
 	"strings"
@@ -316,6 +317,16 @@ func upMutations() []upMutation {
 			s.DFields = rm(s.DFields, "inner")
 			s.Extra = append(s.Extra, "#removedType(N)")
 		}},
+		// meant as a second step after N was removed with the pragma: the name comes back with another field type
+		{"N.redeclare-retyped", func(s *upSpec) {
+			s.HasN = true
+			s.NFields = retype(s.NFields, "v", "String")
+		}},
+		{"N.redeclare-same", func(s *upSpec) { s.HasN = true }},
+		{"N.redeclare-extra-field", func(s *upSpec) {
+			s.HasN = true
+			s.NFields = append([]upField{{"u", "String", "access(all)", false}}, s.NFields...)
+		}},
 		{"N.add-field", func(s *upSpec) { s.NFields = append(s.NFields, upField{"w", "Int", "access(all)", false}) }},
 		{"N.retype-v", func(s *upSpec) { s.NFields = retype(s.NFields, "v", "UInt8") }},
 		{"K.add-case-end", func(s *upSpec) { s.Cases = append(s.Cases, "d") }},
@@ -349,6 +360,8 @@ transaction { prepare(s1: ` + fullAuth + `, s2: ` + fullAuth + `) {
     s1.storage.save(Upg.K.b, to: /storage/k)
     s1.storage.save([Upg.makeD(8) as {Upg.I}], to: /storage/is)
     s2.storage.save(Upg.makeD(9), to: /storage/d9)
+    s2.storage.save(Upg.N(77), to: /storage/n77)
+    s2.storage.save([Upg.N(78)], to: /storage/ns)
 } }`
 
 // probe renders the probe script from the NEW declaration and the expected result computed from what was stored under v1.
@@ -434,6 +447,18 @@ func (s upSpec) probe(v1 upSpec) (string, []string) {
 	for _, c := range v1.QConforms {
 		fmt.Fprintf(&sb, "    out.append(a.storage.borrow<&{Upg.%s}>(from: /storage/q) != nil)\n", c)
 		exp = append(exp, "true")
+	}
+	// a nested struct stored on its own: if the new version declares N (still, or again), the stored values must read under it
+	if s.HasN {
+		sb.WriteString("    let n77 = b.storage.copy<Upg.N>(from: /storage/n77)!\n    let ns = b.storage.copy<[Upg.N]>(from: /storage/ns)!\n")
+		for _, f := range s.NFields {
+			fmt.Fprintf(&sb, "    let n77_%s: %s = n77.%s\n    out.append(n77_%s)\n    let ns_%s: %s = ns[0].%s\n    out.append(ns_%s)\n", f.Name, qualify(f.Type), f.Name, f.Name, f.Name, qualify(f.Type), f.Name, f.Name)
+			if f.Name == "v" {
+				exp = append(exp, "Int(77)", "Int(78)")
+			} else {
+				exp = append(exp, "<any>", "<any>")
+			}
+		}
 	}
 	// the stored enum value: K.b
 	sb.WriteString("    let k = a.storage.copy<Upg.K>(from: /storage/k)!\n    out.append(k.rawValue)\n")
@@ -567,6 +592,8 @@ func runC27(tr c27Trial) (bool, []Violation) {
 		}
 		if t2.Err == nil {
 			v2 = v3
+		} else if os.Getenv("VERIF_DEBUG") != "" {
+			fmt.Println("second update rejected:", clip(t2.Err.Error(), 1200))
 		}
 	}
 	if tr.Restart {
@@ -656,6 +683,14 @@ func c27Worker(w *WorkerCtx) {
 			}
 		}
 	}
+	// histories that are always run: a type removed with #removedType comes back in the next version
+	for _, e := range []string{"interp", "vm"} {
+		for _, second := range []string{"N.redeclare-retyped", "N.redeclare-same", "N.redeclare-extra-field", "N.retype-v"} {
+			for _, rs := range []bool{true, false} {
+				trials = append(trials, c27Trial{Mutation: "N.remove-declaration-with-pragma", Second: second, Engine: e, Via: "update", Restart: rs})
+			}
+		}
+	}
 	nw := numCPU()
 	for i, tr := range trials {
 		if i%nw != w.Index%nw {
@@ -710,6 +745,15 @@ func init() {
 }
 
 func devC27() {
+	if len(os.Args) > 4 {
+		// sim c27 <first> <second> <engine>
+		acc, vs := runC27(c27Trial{Mutation: os.Args[2], Second: os.Args[3], Engine: os.Args[4], Via: "update", Restart: true})
+		fmt.Println("accepted", acc)
+		for _, v := range vs {
+			fmt.Println(clip(v.String(), 1500))
+		}
+		return
+	}
 	for _, m := range upMutations() {
 		for _, e := range []string{"interp", "vm"} {
 			acc, vs := runC27(c27Trial{Mutation: m.Name, Engine: e, Via: "update", Restart: true})
